@@ -368,6 +368,40 @@ pub fn c02(out: &mut dyn Write, tier: &str, rng: &mut Rng, st: &mut Stats) {
             emit_canon(&le, "other-env", &o, &results[0]);
         }
     }
+    // operands that were not built by this environment (plain `Rc` values, as they come out of another
+    // environment, a `{reference}` to another formula's diagram or a symbol conversion): equal
+    // sub-diagrams are then different allocations, and the result must be canonical all the same
+    let nforeign = if thorough { 60000 } else { 3000 };
+    for i in 0..nforeign {
+        let vars = &embs[i % embs.len()];
+        let (ta, tb) = (rng.below(256), rng.below(256));
+        let op = BIN_OPS[(i / 3) % BIN_OPS.len()];
+        let tr = match op {
+            "and" => ta & tb, "or" => ta | tb, "implies" => !ta | tb, "eq" => !(ta ^ tb),
+            "xor" => ta ^ tb, "nor" => !(ta | tb), _ => !(ta & tb),
+        } & 0xFF;
+        let a = if i % 2 == 0 { from_tt(ta, vars) } else {
+            // built by the other environment
+            let v: Vec<B> = vars.iter().map(|v| other_env.var(*v)).collect();
+            let mut r = other_env.mk_const(false);
+            for k in 0..8u64 { if bit(ta, k) {
+                let mut m = other_env.mk_const(true);
+                for j in 0..3 { let l = if bit(k, j as u64) { Rc::clone(&v[j]) } else { other_env.not(Rc::clone(&v[j])) }; m = other_env.and(m, l); }
+                r = other_env.or(r, m);
+            } }
+            r
+        };
+        let b = from_tt(tb, vars);
+        let r = le.bin(op, &a, &b);
+        emit_canon(&le, "foreign-operands", &from_tt(tr, vars), &r);
+        st.hit("route.foreign");
+        if i % 5 == 0 {
+            let c = from_tt(rng.below(256), vars);
+            let r = le.ite(&a, &b, &c);
+            let tc = { let mut t = 0u64; for k in 0..8u64 { let av = bit(ta, k); if (av && bit(tb, k)) || (!av && eval(&c, &|x| bit(k, vars.iter().position(|y| *y == x).unwrap() as u64))) { t |= 1 << k; } } t };
+            emit_canon(&le, "foreign-ite", &from_tt(tc, vars), &r);
+        }
+    }
     // four-variable functions
     let vars4 = vec![0usize, 2, 3, 7];
     let n4: Vec<u64> = if thorough { (0..65536u64).collect() } else { (0..400).map(|_| rng.below(65536)).collect() };
